@@ -29,9 +29,17 @@ def fn_slices(tier):
                           (r'inputs\[0\]\.pat$', 'deps'), (r'\.sig\.async$', 'absent'), (r'\.sig\.inputs$', 'len=1'), (r'inputs\[0\]$', 'typed')]))
     # 2. the option lattice x macro variants (C10 C11 C04 C17)
     for v in ('entrait', 'entrait_export', 'entrait_unimock', 'entrait_export_unimock'):
-        sl.append(dict(name=f'fn/opts/{v}', mode='fn', variant=v,
+        sl.append(dict(name=f'fn/opts/{v}', mode='fn', variant=v, meta=True,
                        bounds=dict(max_params=1, max_generics=0, max_where=0, max_deps_bounds=1, max_wrappers=1, max_fn_attrs=0, max_param_attrs=0, pat_depth=0),
                        fixed=SIMPLE_SIG + ONE_PARAM + [(r'inputs\[0\]\.ty$', '&'), (r'inputs\[0\]\.ty\.&$', 'impl'), (r'\.lt$', 'None'), (r'\.sig\.output$', '()')]))
+    # 2b. unmock entries per dependency kind, argument order for no_deps (C11)
+    sl.append(dict(name='fn/unmock', mode='fn', opts_only=('no_deps', 'unimock', 'mock_api'),
+                   bounds=dict(max_params=2, max_generics=1, max_where=0, max_deps_bounds=1, max_wrappers=1, max_fn_attrs=0, max_param_attrs=0, pat_depth=0,
+                               deps_kinds=('&', 'path:D', 'path:C', 'impl')),
+                   fixed=[(r'fn\.attrs$', 'len=0'), (r'\.vis$', 'inherited'), (r'attr\.vis$', 'pub'), (r'\.sig\.output$', '()'), (r'\.sig\.async$', 'absent'),
+                          (r'inputs\[[1-9]\]\.pat$', 'ident'), (r'inputs\[0\]\.pat$', 'deps'), (r'\.lt$', 'None'), (r'\.sig\.const$', 'absent'),
+                          (r'\.sig\.unsafe$', 'absent'), (r'\.sig\.abi$', 'None'), (r'\.generics\.where$', 'None'), (r'opts\.mock_api$', 'Some'),
+                          (r'inputs\[0\]$', 'typed')]))
     # 3. parameter patterns (C16 C01 C18)
     sl.append(dict(name='fn/patterns-2params', mode='fn', opts_only=(),
                    bounds=dict(max_params=2, max_generics=0, max_where=0, max_deps_bounds=1, max_wrappers=1, max_fn_attrs=0, max_param_attrs=0,
@@ -46,7 +54,12 @@ def fn_slices(tier):
                    bounds=dict(max_params=2, max_generics=0, max_where=0, max_deps_bounds=1, max_wrappers=1, max_fn_attrs=0, max_param_attrs=0,
                                pat_depth=1 if big else 0, pat_width=2 if big else 1, sym_names=True),
                    fixed=SIMPLE_SIG + DEPS_IMPL1 + SYNC_UNIT + [(r'inputs\[0\]$', 'typed'), (r'inputs\[0\]\.pat$', 'ident'), (r'inputs\[\d\]\.attrs$', 'len=0')]))
-    # 5. attributes below entrait, async, ?Send, return type (C18 C12 C14)
+    # 4b. three user parameters (a generated name against TWO written ones), identifier or wildcard patterns only
+    sl.append(dict(name='fn/symbolic-names-3', mode='fn', opts_only=(), solver_timeout_ms=20000,
+                   bounds=dict(max_params=3, max_generics=0, max_where=0, max_deps_bounds=1, max_wrappers=1, max_fn_attrs=0, max_param_attrs=0,
+                               pat_depth=0, pat_width=1, sym_names=True, pat_kinds=('ident', '_')),
+                   fixed=SIMPLE_SIG + DEPS_IMPL1 + SYNC_UNIT + [(r'inputs\[0\]$', 'typed'), (r'inputs\[0\]\.pat$', 'ident'), (r'inputs\[\d\]\.attrs$', 'len=0'),
+                                                                 (r'\.sig\.inputs$', 'len=4')]))
     sl.append(dict(name='fn/attrs-async', mode='fn', opts_only=('future_send', 'no_deps'),
                    bounds=dict(max_params=1, max_generics=0, max_where=0, max_deps_bounds=1, max_wrappers=1, max_fn_attrs=2 if big else 1, max_param_attrs=1, pat_depth=0),
                    fixed=[(r'\.vis$', 'inherited'), (r'attr\.vis$', 'pub'), (r'\.generics\.params$', 'len=0'), (r'\.generics\.where$', 'None'),
@@ -91,6 +104,14 @@ def mod_slices(tier):
                                deps_kinds=('impl', '&', 'path:C'), vis_alts=('inherited', 'pub')),
                    opts_only=('unimock', 'mock_api', 'mockall', 'export', 'future_send'),
                    fixed=base_fixed + [(r'\.sig\.inputs$', 'len=2'), (r'inputs\[0\]$', 'typed'), (r'\.impl$', 'len=1'), (r'attr\.vis$', 'pub')]))
+    # option spellings on modules against their canonical spelling (C17)
+    for v in ('entrait', 'entrait_export_unimock'):
+        sl.append(dict(name=f'mod/meta/{v}', mode='mod', variant=v, meta=True, max_items=2 if big else 1,
+                       bounds=dict(max_params=1, max_generics=0, max_where=0, max_deps_bounds=1, max_wrappers=1, max_fn_attrs=0, max_param_attrs=0, pat_depth=0,
+                                   deps_kinds=('impl', '&'), vis_alts=('pub',)),
+                       opts_only=('no_deps', 'unimock', 'mock_api', 'mockall', 'export'),
+                       fixed=base_fixed + [(r'\.sig\.inputs$', 'len=2'), (r'inputs\[0\]$', 'typed'), (r'\.impl$', 'len=1'), (r'attr\.vis$', 'pub'),
+                                           (r'\.sig\.async$', 'absent'), (r'items\[\d\]\.attrs$', 'len=0'), (r'mod\.attrs$', 'len=0')]))
     return sl
 
 
@@ -127,13 +148,19 @@ def trait_slices(tier):
                                vis_alts=('inherited', 'pub', 'pub_crate') if big else ('inherited', 'pub')),
                    fixed=[(r'\.fn\.generics\.params$', 'len=0'), (r'\.fn\.generics\.where$', 'None'), (r'inputs\[\d\]\.attrs$', 'len=0'), (r'\.pat$', 'ident'),
                           (r'\.fn\.async$', 'absent'), (r'inputs\[0\]$', '&self')]))
+    # visibility written before the delegation-target name x visibility of the trait (C13)
+    sl.append(dict(name='trait/target-visibility', mode='trait', max_items=1, assoc_items=False, delegation=('ref', 'trait', 'borrow'), impl_trait=('some',), opts_only=(),
+                   bounds=dict(max_params=0, max_generics=0, max_where=0, max_deps_bounds=1, max_fn_attrs=0, max_param_attrs=0,
+                               vis_alts=('inherited', 'pub', 'pub_crate')),
+                   fixed=simple_m + [f for f in simple_t if f[0] != r'trait\.vis$'] + [(r'\.default$', 'required'), (r'inputs\[0\]$', '&self'), (r'\.fn\.inputs$', 'len=1'),
+                                                                                       (r'\.fn\.output$', '()'), (r'\.fn\.async$', 'absent')]))
     # options on traits (C10 C11)
-    sl.append(dict(name='trait/opts', mode='trait', max_items=1, assoc_items=False, delegation=('none', 'ref', 'trait'),
+    sl.append(dict(name='trait/opts', mode='trait', max_items=1, meta=True, assoc_items=False, delegation=('none', 'ref', 'trait'),
                    bounds=dict(max_params=1, max_generics=0, max_where=0, max_deps_bounds=1, max_fn_attrs=0, max_param_attrs=0),
                    fixed=simple_m + simple_t + [(r'\.default$', 'required'), (r'\.pat$', 'ident'), (r'inputs\[0\]$', '&self'), (r'\.fn\.inputs$', 'len=2'),
                                                  (r'impl_trait\.vis$', 'inherited'), (r'\.fn\.output$', '()')]))
     for v in ('entrait_export_unimock',):
-        sl.append(dict(name=f'trait/opts/{v}', variant=v, mode='trait', max_items=1, assoc_items=False, delegation=('none',), impl_trait=('none',),
+        sl.append(dict(name=f'trait/opts/{v}', variant=v, mode='trait', max_items=1, meta=True, assoc_items=False, delegation=('none',), impl_trait=('none',),
                        bounds=dict(max_params=0, max_generics=0, max_where=0, max_deps_bounds=1, max_fn_attrs=0, max_param_attrs=0),
                        fixed=simple_m + simple_t + [(r'\.default$', 'required'), (r'inputs\[0\]$', '&self'), (r'\.fn\.inputs$', 'len=1'), (r'\.fn\.output$', '()')]))
     # generic traits, supertraits, method generics (C06 C09)
@@ -156,6 +183,7 @@ def front_slices(tier):
     sl.append(dict(name='front/item/impl-1', mode='front-item', what='impl', layout=['a'], validate=6))
     sl.append(dict(name='front/item/impl-2', mode='front-item', what='impl', layout=['ra', 'rb', 'rc'] if big else ['ra', 'rb'], validate=6))
     sl.append(dict(name='front/item/fn', mode='front-item', what='fn', layout=['sa'], validate=8))
+    sl.append(dict(name='front/item/trait', mode='front-item', what='trait', layout=['ta'], validate=6))
     if big:
         # arbitrary token lists (lazily chosen structured tokens, texts as solver strings); legality decided by the reference grammar
         sl.append(dict(name='front/item/mod-tokens', mode='front-item', what='mod', max_tokens=6, validate=10, time_budget=1500))
@@ -170,14 +198,14 @@ OTHER_FOR = {
     'C04': ['mod/items', 'impl/items', 'mod/attrs-async-opts'],
     'C06': ['trait/delegation', 'trait/generics', 'trait/opts'],
     'C07': ['impl/items', 'impl/attrs-async', 'trait/delegation', 'trait/generics'],
-    'C08': ['mod/items', 'mod/visibility', 'impl/items', 'front/item/mod', 'front/item/impl'],
-    'C09': ['trait/definition', 'trait/generics', 'trait/delegation'],
+    'C08': ['mod/items', 'mod/visibility', 'impl/items', 'front/item/mod-1', 'front/item/mod-2', 'front/item/impl-1', 'front/item/impl-2', 'front/item/mod-tokens'],
+    'C09': ['trait/definition', 'trait/generics', 'trait/delegation', 'front/item/trait'],
     'C10': ['mod/attrs-async-opts', 'trait/opts'],
     'C11': ['mod/attrs-async-opts', 'trait/opts'],
     'C12': ['mod/attrs-async-opts', 'impl/attrs-async', 'trait/delegation'],
-    'C13': ['mod/visibility', 'mod/items', 'trait/delegation', 'trait/definition'],
+    'C13': ['mod/visibility', 'mod/items', 'trait/delegation', 'trait/definition', 'trait/target-visibility', 'front/item/trait'],
     'C14': ['mod/attrs-async-opts', 'impl/items', 'trait/delegation'],
-    'C17': ['front/attr/'],
+    'C17': ['front/attr/', 'trait/opts', 'mod/meta/'],
     'C15': ['front/attr/', 'front/item/mod-1', 'mod/items', 'impl/items', 'impl/attrs-async', 'mod/attrs-async-opts', 'trait/delegation', 'trait/definition', 'trait/opts'],
     'C16': ['impl/attrs-async'],
     'C18': ['mod/attrs-async-opts', 'impl/attrs-async', 'impl/items', 'trait/definition', 'trait/delegation'],
